@@ -341,3 +341,16 @@ def valkey(v):
     if isinstance(v, Val):
         return v.key()
     return v
+
+
+def nocap(k):
+    """a raw value key without capacity annotations (Vec and heapless::Vec contents compare equal)"""
+    if isinstance(k, tuple) and k:
+        if k[0] == "list" and len(k) >= 2 and (k[1] is None or isinstance(k[1], int)):
+            return ("list", None) + tuple(nocap(x) for x in k[2:])
+        if k[0] == "elems" and len(k) == 7:
+            return tuple(nocap(x) for x in k[:6]) + (None,)
+        if k[0] == "seq" and len(k) == 3:
+            return ("seq", nocap(k[1]), None)
+        return tuple(nocap(x) for x in k)
+    return k
